@@ -982,6 +982,23 @@ func checkRound5Small(c *Ctx, id string) {
 		} else {
 			r.Unk("C05.character-keys-returned", "(*keymap.Engine).dispatchCharacter", "-", "anchor not found")
 		}
+		// a query about the key that ran a command does not eat the keys typed behind it
+		r.Rule("C05.terminator-query-consumes", "K10", "(*keymap.Engine).InputIsTerminator — asked by abort whether the key that ran it ends the call — cannot reach the functions that pop keys off the stack: popping there takes the keys typed *behind* the interrupt key when they arrived in the same read, so `abc C-c x RET` in one read returns the line without interrupt and loses `x`, while C-c alone in its read interrupts", 1)
+		if IT := p.Func("(*keymap.Engine).InputIsTerminator"); IT != nil {
+			r.Fn(fnName(IT))
+			reach := p.reachFrom([]*ssa.Function{IT}, func(e *callgraph.Edge) bool { return e.Callee.Func != nil && inRepo(e.Callee.Func) })
+			hit := ""
+			for _, n := range []string{"core.PopKey", "(*core.Keys).Pop", "core.PopForce"} {
+				if f := p.Func(n); f != nil {
+					if _, ok := reach[f]; ok {
+						hit = cgPath(reach, f)
+					}
+				}
+			}
+			r.Check(hit == "", "C05.terminator-query-consumes", fnName(IT)+":pops-keys", p.Pos(IT.Pos()), "does not reach a key-popping function", "InputIsTerminator dispatches the *pending* keys against the terminator binds ("+hit+"): with keys typed behind the interrupt key in the same read it pops one of them, finds no terminator and abort returns without interrupting; with the stack empty it only works because the dispatcher hands back the bind that is still active")
+		} else {
+			r.Unk("C05.terminator-query-consumes", "(*keymap.Engine).InputIsTerminator", "-", "anchor not found")
+		}
 		// what a read returns is decoded as UTF-8 only up to its last whole character
 		r.Rule("C05.decode-whole-characters", "K3", "on the path of WaitAvailableKeys, bytes that come straight from a terminal read are decoded to runes ([]rune(string(b))) only after a test that their last character is whole (utf8.FullRune / Valid / DecodeLastRune deciding what is decoded): a read can end in the middle of a character, and its first bytes decoded alone become U+FFFD, so that the text typed depends on how it was chunked", 1)
 		if WK := p.Func("core.WaitAvailableKeys"); WK != nil {
@@ -1261,6 +1278,45 @@ func checkRound5Small(c *Ctx, id string) {
 		} else {
 			r.Unk("C20.resize-fresh-width", "(*completion.Engine).newCompletionGroup", "-", "anchor not found")
 		}
+		// a resize regenerates the completions without forgetting the candidate inserted in the line
+		r.Rule("C20.regeneration-keeps-selection", "K2", "(*completion.Engine).prepare — run by every regeneration of the completions, the one made by the resize watcher included — and the helpers it calls before generating do not write Engine.selected: the candidate virtually inserted in the line lives there, and a SIGWINCH between two keys would otherwise drop it from the line that Readline returns", 1)
+		if PR := p.Func("(*completion.Engine).prepare"); PR != nil {
+			r.Fn(fnName(PR))
+			writesSel := func(f *ssa.Function) ssa.Instruction {
+				var hit ssa.Instruction
+				eachInstr(f, func(in ssa.Instruction) {
+					if _, ok := isFieldStore(in, "completion.Engine", "selected"); ok && hit == nil {
+						hit = in
+					}
+				})
+				return hit
+			}
+			var bad ssa.Instruction
+			where := ""
+			if h := writesSel(PR); h != nil {
+				bad, where = h, fnName(PR)
+			}
+			for _, cl := range allCalls(PR, false) {
+				h := staticCallee(cl)
+				if h == nil || !inRepo(h) || len(h.Blocks) == 0 || h.Package() != PR.Package() {
+					continue
+				}
+				// generate() may accept a unique candidate further down: that is the generation itself, not the preparation
+				if strings.HasSuffix(fnName(h), ").generate") {
+					continue
+				}
+				if x := writesSel(h); x != nil && bad == nil {
+					bad, where = x, fnName(h)
+				}
+			}
+			pos := p.Pos(PR.Pos())
+			if bad != nil {
+				pos = p.IPos(bad)
+			}
+			r.Check(bad == nil, "C20.regeneration-keeps-selection", fnName(PR)+":selected-untouched", pos, "neither prepare nor its helpers write Engine.selected", "preparing a regeneration writes Engine.selected (in "+where+"): when the terminal is resized while a candidate is inserted, the regeneration forgets it and the line returned lacks the candidate the keys selected")
+		} else {
+			r.Unk("C20.regeneration-keeps-selection", "(*completion.Engine).prepare", "-", "anchor not found")
+		}
 		r.Rule("C20.reading-before-read", "K1", "(*Keys).ReadKey announces itself (stores reading = true) before it can read the terminal or wait for the main loop's keys, on every path: GetCursorPos, run by a resize or a Printf from another goroutine, reads the terminal itself unless waiting or reading is set — two readers on one terminal lose a key or park forever on the cursor channel", 1)
 		if RK := p.Func("(*core.Keys).ReadKey"); RK != nil {
 			r.Fn(fnName(RK))
@@ -1402,6 +1458,109 @@ func checkRound5Small(c *Ctx, id string) {
 			}
 		} else {
 			r.Unk("C14.abort-bound-everywhere", "(*keymap.Engine).loadBuiltinBinds", "-", "anchor not found")
+		}
+		// ---- round 7: as-you-type completions follow the cursor; the app's prefix is taken as given; a restored cursor is set on the restored line
+		r.Rule("C14.autocomplete-every-redisplay", "K1", "displayHelpers asks the completer for the as-you-type completions (Autocomplete) on every path before it displays them: the prefix that an inserted candidate replaces is computed from the cursor position when the completions are generated, so completions kept across a cursor move cut the wrong characters", 1)
+		if DH := p.Func("(*display.Engine).displayHelpers"); DH != nil {
+			r.Fn(fnName(DH))
+			w := pathAvoiding(DH, nil, func(x ssa.Instruction) bool { return isCallTo(x, "completion.Display") }, func(x ssa.Instruction) bool { return isCallTo(x, "(*completion.Engine).Autocomplete") })
+			r.Check(w == nil, "C14.autocomplete-every-redisplay", fnName(DH)+":Autocomplete", p.Pos(DH.Pos()), "Autocomplete runs before the completions are displayed, on every path", "a redisplay can show (and let Tab insert from) completions generated for another cursor position: Autocomplete is skipped on some path of displayHelpers")
+		} else {
+			r.Unk("C14.autocomplete-every-redisplay", "(*display.Engine).displayHelpers", "-", "anchor not found")
+		}
+		r.Rule("C14.given-prefix-untrimmed", "K3", "the prefix supplied by the application with its completions (Values.PREFIX) becomes Engine.prefix as it is: setPrefix trims only the word it reads from the line — a supplied prefix ending with a blank still matches the candidates, and trimming it cuts fewer characters than the word being completed", 1)
+		if SP := p.Func("(*completion.Engine).setPrefix"); SP != nil {
+			isGiven := func(v ssa.Value) bool {
+				_, f, ok := fieldRead(v)
+				return ok && f == "PREFIX"
+			}
+			isTrim := func(v ssa.Value) bool {
+				cl, ok := v.(*ssa.Call)
+				return ok && strings.HasPrefix(calleeName(cl), "strings.Trim")
+			}
+			var given, trimmed []*ssa.Store
+			eachInstr(SP, func(in ssa.Instruction) {
+				st, ok := isFieldStore(in, "completion.Engine", "prefix")
+				if !ok {
+					return
+				}
+				if dependsOn(st.Val, isGiven) {
+					given = append(given, st)
+				}
+				if dependsOn(st.Val, isTrim) {
+					trimmed = append(trimmed, st)
+				}
+			})
+			bad := ""
+			for _, g := range given {
+				for _, t := range trimmed {
+					if g == t {
+						bad = "the supplied prefix is trimmed when stored"
+					} else if pathAvoiding(SP, g, func(x ssa.Instruction) bool { return x == ssa.Instruction(t) }, func(ssa.Instruction) bool { return false }) != nil {
+						// the later store re-reads the field: a trimmed copy of what was just stored
+						if dependsOn(t.Val, func(v ssa.Value) bool { return isFieldLoad(v, "completion.Engine", "prefix") }) {
+							bad = "the prefix is trimmed again after the supplied one was stored"
+						}
+					}
+				}
+			}
+			if len(given) == 0 {
+				r.Unk("C14.given-prefix-untrimmed", fnName(SP)+":given", p.Pos(SP.Pos()), "setPrefix does not store the supplied prefix: anchor changed")
+			} else {
+				r.Check(bad == "", "C14.given-prefix-untrimmed", fnName(SP)+":given", p.IPos(given[0]), "stored as given", bad+": `open \"my ` completed with the candidates `my file.txt` keeps one character of the old word in front of the candidate")
+			}
+		}
+		r.Rule("C14.cursor-after-line", "K1", "a function that restores both a saved line (Line.Set) and a saved cursor position (Cursor.Set with a non-constant position) sets the line first: a position set on the old — often emptied — line is clamped to its length, and Ctrl-C in the search menu brings the buffer back with the cursor at 0", 2)
+		{
+			n := 0
+			for _, f := range p.RepoFuncs {
+				if len(f.Blocks) == 0 {
+					continue
+				}
+				var cs, ls []ssa.CallInstruction
+				for _, cl := range allCalls(f, false) {
+					switch calleeName(cl) {
+					case "(*core.Cursor).Set":
+						// a saved position: read from a field (e.isearchStartCursor, undo.pos), not computed by the command
+						if _, _, isF := fieldRead(stripConv(cl.Common().Args[1])); isF {
+							cs = append(cs, cl)
+						}
+					case "(*core.Line).Set":
+						ls = append(ls, cl)
+					}
+				}
+				if len(cs) == 0 || len(ls) == 0 {
+					continue
+				}
+				for i, c0 := range cs {
+					// same buffer: the cursor and the line come from sibling fields of one struct load (e.cursor / e.line, h.cursor / h.line)
+					cb, cf, okc := fieldRead(c0.Common().Args[0])
+					paired := false
+					var late ssa.Instruction
+					for _, l0 := range ls {
+						lb, lf, okl := fieldRead(l0.Common().Args[0])
+						if !okc || !okl || !sameValue(cb, lb) || !(strings.HasSuffix(strings.ToLower(cf), "cursor") || strings.HasSuffix(strings.ToLower(cf), "cur")) || !(strings.HasSuffix(strings.ToLower(lf), "line") || strings.HasSuffix(strings.ToLower(lf), "buf")) {
+							continue
+						}
+						paired = true
+						if w := pathAvoiding(f, c0.(ssa.Instruction), func(x ssa.Instruction) bool { return x == l0.(ssa.Instruction) }, func(ssa.Instruction) bool { return false }); w != nil {
+							// a loop that sets both each time round is fine when the line is also set before the cursor in the iteration
+							if !instrDominates(l0.(ssa.Instruction), c0.(ssa.Instruction)) {
+								late = l0.(ssa.Instruction)
+							}
+						}
+					}
+					if !paired {
+						continue
+					}
+					n++
+					pos := p.IPos(c0.(ssa.Instruction))
+					r.Check(late == nil, "C14.cursor-after-line", siteKey(f, "Cursor.Set", i), pos, "the line is set before the position", "the saved cursor position is set before the line it belongs to is put back: on the line still in place (emptied to receive a candidate) the position is clamped, and the restored buffer has its cursor at the wrong place")
+				}
+			}
+			if n == 0 {
+				r.Unk("C14.cursor-after-line", "restore-sites", "-", "no function restores a line and a cursor position: anchors changed")
+			}
 		}
 		// ClearMenu leaves the menu keymap whatever it is asked to drop
 		r.Rule("C14.clear-menu-leaves-keymap", "K1", "(*completion.Engine).ClearMenu leaves the menu-select keymap on every path on which that keymap is the local one, whether or not it is asked to drop the completions: a list kept on screen with no candidate selected must not keep the menu keymap, or the next typed key is looked up there", 1)
@@ -1694,6 +1853,24 @@ func checkRound5Small(c *Ctx, id string) {
 					}
 				}
 				r.Check(guarded, "C04.wrapped-cell-cleared", fmt.Sprintf("strutil.ClearWrapped:clear#%d", clears), p.IPos(in), "written under a test against the terminal width", "the clear sequence is written without comparing the column with the terminal width")
+				// and only when the row is not full: with the cursor parked on the last column (pending wrap) the sequence erases the last character
+				strict := false
+				for fc := range factsAt(bf, in) {
+					rel, ok := relOf(fc.Cond, fc.Val)
+					if !ok {
+						continue
+					}
+					// column < width: one side is the terminal width itself, the other the running column (a loop variable, no sum)
+					isW := func(v ssa.Value) bool { return isWidthCall(stripConv(v)) }
+					isCol := func(v ssa.Value) bool { _, isPhi := v.(*ssa.Phi); return isPhi }
+					if rel.Op == token.LSS && isCol(rel.X) && isW(rel.Y) {
+						strict = true
+					}
+					if rel.Op == token.GTR && isCol(rel.Y) && isW(rel.X) {
+						strict = true
+					}
+				}
+				r.Check(strict, "C04.wrapped-cell-cleared", fmt.Sprintf("strutil.ClearWrapped:clear#%d:row-not-full", clears), p.IPos(in), "under column < terminal width", "the clear sequence is written also when the row is exactly full: the terminal's cursor is still on the last column then (the wrap is pending), and clearing to the end of the row erases the last character of a row that ends right before a double-width character")
 			})
 			if clears == 0 {
 				r.Bad("C04.wrapped-cell-cleared", "strutil.ClearWrapped:clear", p.Pos(CW.Pos()), "ClearWrapped never writes the clear-to-end-of-row sequence")
@@ -2426,5 +2603,316 @@ func checkPairedNil(c *Ctx, rule string) {
 		if n == 0 {
 			r.OK(rule, fmt.Sprintf("%s.%s⇒%s", b.tn, b.a, b.b), beliefs[b], "the dereferenced field is never set to nil")
 		}
+	}
+}
+
+// ---- C01.nil-map-write (round 7): a map field that some function makes on first use is never written where it may still be nil
+//
+// Contradiction rule (Engler): a function that tests a map-typed struct field against nil before
+// making it states that the field may be nil. Every write of an entry through a load of that field,
+// anywhere in the module, must then sit under a nil test of the field in its own function (a
+// comparison with nil whose block dominates the write) or follow a store of a fresh map to it.
+func checkNilMapWrite(c *Ctx, rule string) {
+	p, r := c.P, c.R
+	r.Rule(rule, "K4", "a map-typed struct field that one function makes on first use (tests against nil, then stores a new map) is written, everywhere, only after such a test or after a store of a new map in the writing function: a sibling that writes an entry straight away panics (assignment to entry in nil map) for a value whose map was never made", 1)
+	type fld struct{ tn, name string }
+	fieldOfLoad := func(v ssa.Value) (fld, bool) {
+		u, ok := v.(*ssa.UnOp)
+		if !ok || u.Op != token.MUL {
+			return fld{}, false
+		}
+		tn, fn, ok := fieldOf(u.X)
+		if !ok {
+			return fld{}, false
+		}
+		if _, isMap := u.Type().Underlying().(*types.Map); !isMap {
+			return fld{}, false
+		}
+		return fld{tn, fn}, true
+	}
+	// nil tests of map fields per function
+	type testSite struct {
+		f  *ssa.Function
+		in *ssa.BinOp
+	}
+	tests := map[fld][]testSite{}
+	lazy := map[fld]string{}
+	for _, f := range p.RepoFuncs {
+		if len(f.Blocks) == 0 {
+			continue
+		}
+		eachInstr(f, func(in ssa.Instruction) {
+			bo, ok := in.(*ssa.BinOp)
+			if !ok || (bo.Op != token.EQL && bo.Op != token.NEQ) {
+				return
+			}
+			var other ssa.Value
+			switch {
+			case isNilConst(bo.Y):
+				other = bo.X
+			case isNilConst(bo.X):
+				other = bo.Y
+			default:
+				return
+			}
+			if fd, ok := fieldOfLoad(other); ok {
+				tests[fd] = append(tests[fd], testSite{f, bo})
+			}
+		})
+	}
+	// lazily made: the function with the nil test also stores a MakeMap to the field
+	for fd, ts := range tests {
+		for _, t := range ts {
+			eachInstr(t.f, func(in ssa.Instruction) {
+				if st, ok := isFieldStore(in, fd.tn, fd.name); ok {
+					if _, isMk := st.Val.(*ssa.MakeMap); isMk {
+						lazy[fd] = p.IPos(t.in)
+					}
+				}
+			})
+		}
+	}
+	if len(lazy) == 0 {
+		r.OK(rule, "no-lazily-made-map-field", "-", "no map field is made on first use")
+		return
+	}
+	n := 0
+	for _, f := range p.RepoFuncs {
+		if len(f.Blocks) == 0 {
+			continue
+		}
+		k := 0
+		eachInstr(f, func(in ssa.Instruction) {
+			mu, ok := in.(*ssa.MapUpdate)
+			if !ok {
+				return
+			}
+			fd, ok := fieldOfLoad(mu.Map)
+			if !ok {
+				return
+			}
+			where, isLazy := lazy[fd]
+			if !isLazy {
+				return
+			}
+			// a function nothing in the module calls, on an internal type, cannot run inside Readline
+			if len(p.callersOf(f)) == 0 && f.Package() != nil && strings.Contains(f.Package().Pkg.Path(), "/internal/") {
+				return
+			}
+			n++
+			key := fmt.Sprintf("%s.%s|%s", fd.tn, fd.name, siteKey(f, "entry-write", k))
+			k++
+			guarded := false
+			for _, t := range tests[fd] {
+				if t.f == f && instrDominates(t.in, in) {
+					guarded = true
+				}
+			}
+			if !guarded {
+				// a fresh map stored to the field (of the same base) on every path before the write
+				isMake := func(x ssa.Instruction) bool {
+					st, ok := isFieldStore(x, fd.tn, fd.name)
+					if !ok {
+						return false
+					}
+					_, isMk := st.Val.(*ssa.MakeMap)
+					return isMk
+				}
+				guarded = pathAvoiding(f, nil, func(x ssa.Instruction) bool { return x == in }, isMake) == nil
+			}
+			if !guarded {
+				// a call, before the write, of a function that itself tests the field and makes the map (an init helper)
+				makers := map[*ssa.Function]bool{}
+				for _, t := range tests[fd] {
+					isMaker := false
+					eachInstr(t.f, func(x ssa.Instruction) {
+						if st, ok := isFieldStore(x, fd.tn, fd.name); ok {
+							if _, isMk := st.Val.(*ssa.MakeMap); isMk {
+								isMaker = true
+							}
+						}
+					})
+					if isMaker {
+						makers[t.f] = true
+					}
+				}
+				for _, cl := range allCalls(f, false) {
+					if h := staticCallee(cl); h != nil && makers[h] && instrDominates(cl.(ssa.Instruction), in) {
+						guarded = true
+					}
+				}
+			}
+			if !guarded {
+				// the struct was just obtained from a constructor of the module that makes this map
+				if u, ok := mu.Map.(*ssa.UnOp); ok {
+					if fa, ok := u.X.(*ssa.FieldAddr); ok {
+						if al, ok := fa.X.(*ssa.Alloc); ok {
+							for _, ref := range referrersOf(al) {
+								st, ok := ref.(*ssa.Store)
+								if !ok || st.Addr != ssa.Value(al) {
+									continue
+								}
+								if cl, ok := st.Val.(*ssa.Call); ok {
+									if h := staticCallee(cl); h != nil && inRepo(h) {
+										makes := false
+										eachInstr(h, func(x ssa.Instruction) {
+											if st2, ok := isFieldStore(x, fd.tn, fd.name); ok {
+												if _, isMk := st2.Val.(*ssa.MakeMap); isMk {
+													makes = true
+												}
+											}
+										})
+										if makes && instrDominates(st, in) {
+											guarded = true
+										}
+									}
+								}
+							}
+						}
+					}
+				}
+			}
+			if !guarded {
+				// the receiver is a fresh composite literal whose field was just set
+				if u, ok := mu.Map.(*ssa.UnOp); ok {
+					if fa, ok := u.X.(*ssa.FieldAddr); ok {
+						if _, fresh := fa.X.(*ssa.Alloc); fresh {
+							for _, ref := range referrersOf(fa.X) {
+								if fa2, ok := ref.(*ssa.FieldAddr); ok && fa2.Field == fa.Field {
+									for _, r2 := range referrersOf(fa2) {
+										if st, ok := r2.(*ssa.Store); ok && !isNilConst(st.Val) && instrDominates(st, in) {
+											guarded = true
+										}
+									}
+								}
+							}
+						}
+					}
+				}
+			}
+			r.Check(guarded, rule, key, p.IPos(in), "written under a nil test of the field or after it is made", fmt.Sprintf("an entry of %s.%s is written without testing the map for nil, although it is made on first use elsewhere (nil test at %s): for a value whose map was never made this panics with `assignment to entry in nil map` — inside Readline when it happens in the application's completer", fd.tn, fd.name, where))
+		})
+	}
+	if n == 0 {
+		r.OK(rule, "no-entry-write", "-", "lazily made map fields are never written through a load")
+	}
+}
+
+// ---- C01.repeat-count (round 7): strings.Repeat panics on a negative count
+var reviewedRepeatCounts = map[string]string{
+	"history.Complete:Repeat#0": "len(Itoa(history.Len())) - len(Itoa(histPos)) with 0 <= histPos < history.Len() (histPos walks the entries of the source downward from Len()-1): a smaller non-negative number has no more decimal digits",
+}
+
+func checkRepeatCount(c *Ctx, rule string) {
+	p, r := c.P, c.R
+	r.Rule(rule, "K4", "the count given to strings.Repeat is never negative (strings.Repeat panics otherwise): a non-negative constant, a length or a count, a value clamped at zero or tested positive on the way, or a reviewed site", 2)
+	nonNegCallee := func(h *ssa.Function) bool {
+		if h == nil || len(h.Blocks) == 0 {
+			return false
+		}
+		ok := true
+		n := 0
+		eachInstr(h, func(in ssa.Instruction) {
+			ret, isR := in.(*ssa.Return)
+			if !isR || len(ret.Results) != 1 {
+				return
+			}
+			n++
+			for _, v := range mayValues(ret.Results[0]) {
+				if k, isK := constInt(v); isK && k >= 0 {
+					continue
+				}
+				if isLenCall(v) {
+					continue
+				}
+				if cl, isC := v.(*ssa.Call); isC && (calleeName(cl) == "strings.Count" || calleeName(cl) == "unicode/utf8.RuneCountInString") {
+					continue
+				}
+				ok = false
+			}
+		})
+		return ok && n > 0
+	}
+	var nonNeg func(v ssa.Value, at ssa.Instruction, bf FactMap, depth int) bool
+	nonNeg = func(v ssa.Value, at ssa.Instruction, bf FactMap, depth int) bool {
+		if depth > 3 {
+			return false
+		}
+		if k, ok := constInt(v); ok {
+			return k >= 0
+		}
+		if isLenCall(v) {
+			return true
+		}
+		if cl, ok := v.(*ssa.Call); ok {
+			if b, isB := cl.Call.Value.(*ssa.Builtin); isB && b.Name() == "max" {
+				for _, a := range cl.Call.Args {
+					if nonNeg(a, at, bf, depth+1) {
+						return true
+					}
+				}
+				return false
+			}
+			if nonNegCallee(staticCallee(cl)) {
+				return true
+			}
+		}
+		// a dominating test on the value itself
+		for fc := range factsAt(bf, at) {
+			rel, ok := relOf(fc.Cond, fc.Val)
+			if !ok || rel.X != v {
+				continue
+			}
+			if k, isK := constInt(rel.Y); isK && ((rel.Op == token.GTR && k >= -1) || (rel.Op == token.GEQ && k >= 0)) {
+				return true
+			}
+		}
+		// clamp: phi whose every edge is non-negative where it comes from (an edge taken under `x < 0` false carries x >= 0)
+		if ph, ok := v.(*ssa.Phi); ok {
+			all := true
+			for i, e := range ph.Edges {
+				pred := ph.Block().Preds[i]
+				if nonNeg(e, lastInstr(pred), bf, depth+1) {
+					continue
+				}
+				// the edge itself: pred ends in `if e < 0` and this is the false successor
+				good := false
+				if cond, val, ok := edgeCondition(pred, ph.Block()); ok {
+					if rel, ok := relOf(cond, val); ok && rel.X == e {
+						if k, isK := constInt(rel.Y); isK && ((rel.Op == token.GEQ && k >= 0) || (rel.Op == token.GTR && k >= -1)) {
+							good = true
+						}
+					}
+				}
+				if !good {
+					all = false
+				}
+			}
+			return all
+		}
+		return false
+	}
+	n := 0
+	for _, f := range p.RepoFuncs {
+		if len(f.Blocks) == 0 {
+			continue
+		}
+		var bf FactMap
+		for i, cl := range callsTo(f, true, "strings.Repeat") {
+			if bf == nil {
+				bf = blockFacts(f)
+			}
+			n++
+			key := siteKey(f, "Repeat", i)
+			count := cl.Common().Args[1]
+			if why, ok := reviewedRepeatCounts[key]; ok {
+				r.OK(rule, key, p.IPos(cl.(ssa.Instruction)), "reviewed: "+why)
+				continue
+			}
+			r.Check(nonNeg(count, cl.(ssa.Instruction), bf, 0), rule, key, p.IPos(cl.(ssa.Instruction)), "the count is not negative", "the count given to strings.Repeat ("+p.descValue(count)+") is not known to be non-negative here: strings.Repeat panics on a negative count, and this call runs inside Readline")
+		}
+	}
+	if n == 0 {
+		r.OK(rule, "no-repeat", "-", "strings.Repeat is not used")
 	}
 }
